@@ -410,6 +410,7 @@ def places (s : State) (t : Nat) : Nat :=
             `extend:w:id` `rresched:id:d` `rextend:id` `expire:id` `mature:id` `dlq:id` `sweep` `replay:did`
             `crash:k:<op>`
   answer  : per op `<out>#<rows>#<dlq>#<order of the deliverable rows>#<acked>` joined by `|`
+  (the pair form `queue <m> <setup> <A> <B> [ab|ba]` is described above `drivePair`)
 -/
 
 def parseAct (toks : List String) : Option Act :=
@@ -473,12 +474,70 @@ def runShow (s : State) : List Op → List String
     let s' := next s op
     ((outOf s op).show ++ "#" ++ showState s') :: runShow s' rest
 
+/-! ### pairs — the sequential reference of the statement-level interleaving suite
+
+  request : `queue <maxAttempts> <setup ops> <A> <B> <ab|ba>` — `A`, `B` are op groups (`op;op;…`) applied to the state
+            after the setup in the order `A;B` (`ab`) or `B;A` (`ba`); without the last token both orders are answered
+            (`<A;B>|<B;A>`); `split` (A must be one `poll:w`): `sel:w; B; claim:w`
+  answer  : `<outs of A>,<outs of B>#<state>` — the outputs always in the order A, B, a group's outputs joined by `+`.
+  `check_and_move_expired` returns the number of rows its SELECT saw, which under a concurrent move is not the number
+  it moved; the pair form prints that count as `n`.
+-/
+
+def Out.showPair : Out → String
+  | .count _ => "n"
+  | o => o.show
+
+/-- outputs of an op group and the state after it -/
+def runGroup (s : State) : List Op → List String × State
+  | [] => ([], s)
+  | op :: rest =>
+    let r := runGroup (next s op) rest
+    ((outOf s op).showPair :: r.1, r.2)
+
+def showPairOrder (s : State) (a b : List Op) (ab : Bool) : String :=
+  if ab then
+    let ra := runGroup s a
+    let rb := runGroup ra.2 b
+    Parse.joinWith "+" ra.1 ++ "," ++ Parse.joinWith "+" rb.1 ++ "#" ++ showState rb.2
+  else
+    let rb := runGroup s b
+    let ra := runGroup rb.2 a
+    Parse.joinWith "+" ra.1 ++ "," ++ Parse.joinWith "+" rb.1 ++ "#" ++ showState ra.2
+
+/-- `A = poll:w` split at its SELECT / claim UPDATE with the group `B` in between (`sel:w; B; claim:w`): the one
+    statement-level interleaving of a poll that is not an interleaving of whole operations.  Same answer format. -/
+def showPairSplit (s : State) (w : Nat) (b : List Op) : String :=
+  let rb := runGroup (next s (.act (.pollSelect w))) b
+  (outOf rb.2 (.act (.pollClaim w))).showPair ++ "," ++ Parse.joinWith "+" rb.1 ++ "#"
+    ++ showState (next rb.2 (.act (.pollClaim w)))
+
+def parseOps (s : String) : Option (List Op) := Parse.all? parseOp (Parse.splitNE s ";")
+
+def drivePairSplit (m pre a b : String) : String :=
+  match Parse.nat? m, parseOps pre, parseOps a, parseOps b with
+  | some m, some pre, some [.act (.poll w)], some b => showPairSplit (run (init m) pre) w b
+  | _, _, _, _ => "bad-request"
+
+def drivePair (m pre a b : String) (order : Option Bool) : String :=
+  match Parse.nat? m, parseOps pre, parseOps a, parseOps b with
+  | some m, some pre, some a, some b =>
+    let s := run (init m) pre
+    match order with
+    | some o => showPairOrder s a b o
+    | none => showPairOrder s a b true ++ "|" ++ showPairOrder s a b false
+  | _, _, _, _ => "bad-request"
+
 def drive (rest : String) : String :=
   match rest.splitOn " " with
   | [m, ops] =>
     match Parse.nat? m, Parse.all? parseOp (Parse.splitNE ops ";") with
     | some m, some ops => Parse.joinWith "|" (runShow (init m) ops)
     | _, _ => "bad-request"
+  | [m, pre, a, b] => drivePair m pre a b none
+  | [m, pre, a, b, "ab"] => drivePair m pre a b (some true)
+  | [m, pre, a, b, "ba"] => drivePair m pre a b (some false)
+  | [m, pre, a, b, "split"] => drivePairSplit m pre a b
   | _ => "bad-request"
 
 end Stab.Queue
